@@ -1285,6 +1285,8 @@ class Interp:
                 effs = [ef for ef in lc.effects if ef[0] == vid]
                 if not effs:
                     continue
+                if all(ef[2] != "=" for ef in effs):
+                    continue      # already a compound update (`p = x | p` is read as `p |= x`): the ordinary reduction rules apply
                 if len(effs) != 1 or effs[0][1] or effs[0][2] != "=" or effs[0][5]:
                     raise Undecided("accumulator %s is updated more than once / partially in the loop body" % self.var_names.get(vid, vid))
                 (_v, _p, _o, val, gs, _b) = effs[0]
